@@ -123,6 +123,31 @@ func runC13(rowsFile string, reserved map[string]map[string]bool, b *hc.Builder)
 				return p, p.Interface().(restlicodec.Unmarshaler).UnmarshalRestLi(restlicodec.NewInterfaceReader(b.PlainOf(row.Json)))
 			}},
 		}
+		if ctor, ok := defaultCtors[row.Schema]; ok {
+			// decoding INTO an instance that already carries the defaults (the constructor's result, or the target of an
+			// earlier decode): a value present in the document still wins, nothing of the old content is merged in
+			readings = append(readings, reading{"json/into-default-instance", func() (reflect.Value, error) {
+				p := reflect.ValueOf(ctor())
+				r, err := restlicodec.NewJsonReader([]byte(doc))
+				if err != nil {
+					return p, err
+				}
+				return p, p.Interface().(restlicodec.Unmarshaler).UnmarshalRestLi(r)
+			}})
+			readings = append(readings, reading{"json/into-previously-decoded-instance", func() (reflect.Value, error) {
+				p := reflect.ValueOf(ctor())
+				for k := 0; k < 2; k++ {
+					r, err := restlicodec.NewJsonReader([]byte(doc))
+					if err != nil {
+						return p, err
+					}
+					if err := p.Interface().(restlicodec.Unmarshaler).UnmarshalRestLi(r); err != nil {
+						return p, err
+					}
+				}
+				return p, nil
+			}})
+		}
 		if tm, ok := typedMap(b.PlainOf(row.Json)); ok {
 			readings = append(readings, reading{"untyped/typed-map", func() (reflect.Value, error) {
 				p := reflect.New(typ)
